@@ -6,6 +6,8 @@ go wrong is returned as data; nothing here decides a property.
 """
 from __future__ import annotations
 
+from collections import Counter
+
 import time
 from dataclasses import dataclass, field
 from typing import Iterable, Optional, Sequence
@@ -156,8 +158,10 @@ def diff_models(src: list, res: list, bijection: bool) -> Optional[dict]:
             "only_source": [[sorted(m), list(c)] for m, c in lost],
             "only_result": [[sorted(m), list(c)] for m, c in gained],
         }
-    if bijection and (len(res) != len(rset) or len(src) != len(res)):
-        return {"kind": "count", "n_src": len(src), "n_res": len(res), "n_distinct": len(rset)}
+    # one-to-one: every projected answer set occurs equally often on both sides.  (Normally once; clingo itself
+    # enumerates duplicates for a source like 'h(_,X) : d(X,D) ; g(A) :- ...' whose hidden projection atoms differ.)
+    if bijection and Counter(src) != Counter(res):
+        return {"kind": "count", "n_src": len(src), "n_res": len(res), "n_distinct": len(rset), "n_distinct_src": len(sset)}
     return None
 
 
